@@ -12,6 +12,7 @@ import (
 
 	upfreport "github.com/free5gc/go-upf/internal/report"
 
+	"github.com/free5gc/go-upf/internal/verif/rxwindow"
 	"github.com/free5gc/go-upf/internal/verif/stack"
 	"github.com/free5gc/go-upf/internal/verif/vcore"
 )
@@ -34,7 +35,8 @@ type Ev struct {
 	URRs  []uint32       `json:"urrs,omitempty"`
 	Trig  uint32         `json:"trig,omitempty"`
 	Rules []stack.RuleOp `json:"rules,omitempty"`
-	N     int            `json:"n,omitempty"` // report: so many notifications in a row (the SMF answers none of them: they all stay outstanding)
+	N     int            `json:"n,omitempty"`
+	SendFail bool        `json:"send_fail,omitempty"` // mod: the first transmission of the response fails; the request is sent again // report: so many notifications in a row (the SMF answers none of them: they all stay outstanding)
 }
 
 type Case struct {
@@ -63,6 +65,7 @@ type stats struct {
 	reports      int
 	outstanding  int // report requests sent and never answered
 	unsendable   int // notifications for which no report request could be sent
+	lostAnswers   int  // Modification Responses that reached the SMF through a retransmission of the request only
 	refusedCreate bool // a Create URR for a URR that exists
 	sendFailed   int // report requests that reached the SMF as a retransmission only (first transmission failed locally)
 }
@@ -243,7 +246,7 @@ func gen(t *rapid.T) Case {
 				}
 			}
 			if len(rules) > 0 {
-				evs = append(evs, Ev{Kind: "mod", Sess: si, Rules: rules})
+				evs = append(evs, Ev{Kind: "mod", Sess: si, Rules: rules, SendFail: rapid.IntRange(0, 7).Draw(t, "send_fail") == 0})
 			}
 		case "del":
 			g.alive = false
@@ -470,7 +473,26 @@ func run(c Case) (v *vcore.Violation, stt stats) {
 					cur[ikey{ev.Sess, ru.ID}] = &inc{carriers: map[string]bool{}}
 				}
 			}
-			o := r.Step(stack.Op{Kind: "mod", Peer: nd, Sess: ref[ev.Sess], Rules: stack.Permute(ev.Rules, c.Perm+uint32(i))})
+			mop := stack.Op{Kind: "mod", Peer: nd, Sess: ref[ev.Sess], Rules: stack.Permute(ev.Rules, c.Perm+uint32(i))}
+			var o *stack.Obs
+			if ev.SendFail {
+				// the response cannot be sent (the socket refuses the write); the SMF retransmits its request once the socket works
+				// again and gets the answer the first copy produced - with the reports and the numbers they took
+				b, err := r.Build(mop, uint32(0x500000+i))
+				if err != nil {
+					panic(err)
+				}
+				st.Srv.VerifFailSends(true)
+				if err := st.Send(nd, b); err != nil {
+					panic(err)
+				}
+				rxwindow.Served(st)
+				st.Srv.VerifFailSends(false)
+				o = r.SendRaw(nd, b)
+				stt.lostAnswers++
+			} else {
+				o = r.Step(mop)
+			}
 			if o.Dead != nil {
 				return vcore.Violatef(o.Dead.Key, "event %d: UPF fatal exit: %.400s", i, o.Dead.Msg), stt
 			}
@@ -523,6 +545,9 @@ func account(c Case, s stats) {
 	}
 	if s.unsendable > 0 && s.reports > 0 {
 		vcore.E.Class("reports_in_responses_after_notifications_that_could_not_be_sent")
+	}
+	if s.lostAnswers > 0 {
+		vcore.E.Class("modification_response_whose_first_transmission_failed")
 	}
 	if s.refusedCreate {
 		vcore.E.Class("create_urr_for_a_urr_that_exists")
